@@ -124,7 +124,11 @@ def boundaries(p):
         if nxt is not None and nxt.kind == "comment" and nxt.sid == prev.sid:
             continue
         closed = True
-        if prev.kind in ("funchead", "ctrl", "else", "utype_open") or (prev.kind == "cont" and prev.info.get("K") == "K1"):
+        j = i - 1
+        while j > 0 and p.lines[j].kind == "comment":
+            j -= 1          # a comment does not close what the line before it opened
+        opener = p.lines[j]
+        if opener.kind in ("funchead", "ctrl", "else", "utype_open") or (opener.kind == "cont" and opener.info.get("K") == "K1"):
             closed = False
         if prev.kind == "enumerator" or (nxt is not None and nxt.kind == "enumerator"):
             cls = "enum-block"
